@@ -40,6 +40,8 @@ C09OK(e) ==
     /\ EqHybrid(DropEmptyEnv(e.j3), DropEmptyEnv(e.jav), "pipeline")       \* and through YAML: both formats carry the same data
     /\ e.kinds[2] = e.kinds[1] /\ e.kinds[3] = e.kinds[1]                   \* same step kinds
     /\ e.same                                                               \* byte-identical repeated marshalling
+    /\ EqOrd(e.o2, e.o1) /\ EqOrd(e.o3, e.o1)                               \* the re-parsed OBJECTS equal the first, field by field (harness/objproj.go)
+    /\ EqOrd(e.o1after, e.o1)                                               \* and marshalling left the first one as it was
     /\ \A i \in 1..Len(e.solo) :                                            \* stand-alone decoders
           EqHybrid(e.solo[i][2], e.solo[i][1], IF e.solo[i][3] = "step" THEN "stepitem" ELSE "pluginlist")
 \* C08, programmatic clause: an ordered map built through the API, encoded and decoded again by the library
